@@ -203,7 +203,7 @@ def run(tier, seed, replay=None):
     picks += [c for c in cases if c[1] in ("padded", "quoted")]
     picks += rng.sample([c for c in cases if c[1] == "noncolour"], 150 if tier == "quick" else 1500)
     picks += rng.sample([c for c in cases if c[1] == "keyword"], 100 if tier == "quick" else 740)
-    picks += [("#abc", "hex3"), ("#8abc", "hex4"), ("#0a0b0c", "hex68"), ("#800a0b0c", "hex68"),
+    picks += [("", "noncolour"), ("#", "noncolour"), (" ", "noncolour"), ("#abc", "hex3"), ("#8abc", "hex4"), ("#0a0b0c", "hex68"), ("#800a0b0c", "hex68"),
               ("Transparent", "keyword"), ("DarkSlateGray", "keyword"), ("darkslategrey", "keyword")]
     if replay:
         picks = cases
